@@ -66,7 +66,7 @@ func QualCalls(w *vt.W, rng *rand.Rand, n int) {
 		src := qvecOf(solexa, r)
 		ev := vt.Ev{"ev": "qcall", "id": id, "q": true, "solexa": solexa, "src": srcEv(r, false), "alpha": "", "err": "", "panic": "", "aliased": false,
 			"res": vt.Ev{"off": 0, "cells": []cell{}, "circular": false}, "fs": []vt.Ev{}, "other": []cell{}, "errs": []int{},
-			"s": 0, "e": 0, "where": 0, "limit": 0, "ts": 0, "te": 0}
+			"s": 0, "e": 0, "where": 0, "limit": 0, "ts": 0, "te": 0, "inplace": false}
 		var dst sequtils.Sliceable
 		finish := func(err error) {
 			if err != nil {
